@@ -470,6 +470,8 @@ func checkTopicSet(fl *failer, ix *index, p *j5sgen.Package) {
 				}
 			case d.Topic != nil && d.Topic.Kind == "upsert":
 				want[upperFirst(d.Topic.Name)+"Topic"] = "upsert"
+			case d.Topic != nil && d.Topic.Kind == "event":
+				want[upperFirst(d.Topic.Name)+"Topic"] = "event"
 			}
 		}
 	}
